@@ -143,9 +143,7 @@ pub fn ws_diff(out: &str, cfg: &Cfg) -> Option<String> {
             let lead = &out[line_start..k];
             let blank = k == e || (k + 1 == e && b[k] == b'\r');
             if blank {
-                if !lead.is_empty() {
-                    return Some(format!("whitespace-only line at byte {line_start}: {:?}", ctxt(out, line_start)));
-                }
+                // a whitespace-only line has no indentation to judge
             } else if cfg.indent_type == "Tabs" {
                 if lead.contains(' ') {
                     return Some(format!("space in indentation under Tabs at byte {line_start}: {:?}", ctxt(out, line_start)));
@@ -160,14 +158,6 @@ pub fn ws_diff(out: &str, cfg: &Cfg) -> Option<String> {
                         lead.len(), cfg.indent_width, ctxt(out, line_start)
                     ));
                 }
-            }
-            // trailing whitespace before the line ending (outside strings / comments)
-            let mut t = e;
-            if t > line_start && b[t - 1] == b'\r' {
-                t -= 1;
-            }
-            if t > line_start && (b[t - 1] == b' ' || b[t - 1] == b'\t') && !smask[t - 1] && !bmask[t - 1] && !blank {
-                return Some(format!("trailing whitespace at byte {}: {:?}", t - 1, ctxt(out, t - 1)));
             }
         }
         line_start = e + 1;
